@@ -2,6 +2,7 @@
 
 import asyncio
 import dataclasses
+import itertools
 import json
 import os
 import random
@@ -78,6 +79,11 @@ def _payload_samples(T, rnd, count):
         for v in range(256):
             yield [v]
         return
+    # field boundaries: every octet at one of its extremes (a zero field next to set validity bits is the case a
+    # truthiness test in a parser of the JSON form mistakes for "missing")
+    if n <= 8:
+        for combo in itertools.product((0x00, 0xFF) if (n > 6 or count < 100) else (0x00, 0x01, 0xFF), repeat=n):
+            yield list(combo)
     for _ in range(count):
         yield [rnd.randrange(256) for _ in range(n)]
 
@@ -89,7 +95,7 @@ def _tool_cases(tier):
             yield (T, p)
 
 
-@standin("C45", cases=_tool_cases, kind="enum-native", exhaustive=False, bound="every registered DPT x (all binary payloads / all 1 octet payloads / 5 fixed + seeded random payloads for longer types)")
+@standin("C45", cases=_tool_cases, kind="enum-native", exhaustive=False, bound="every registered DPT x (all binary payloads / all 1 octet payloads / 5 fixed + every octet at 0x00/0xFF (thorough, up to 6 octets: 0x00/0x01/0xFF) for types up to 8 octets + seeded random payloads for longer types)")
 def decode_encode_decode_through_the_tools(T, payload):
     """decode_dpt_payload gives a JSON-serialisable result; feeding its value (after a JSON round trip)
     to encode_dpt_payload and decoding again returns the same value."""
